@@ -112,6 +112,10 @@ Proof. intros Hw. rewrite <- ival_L, (L_Linv F Hw). reflexivity. Qed.
 (* value at t = 0+ of the regular part: only the n = 0 terms contribute *)
 Fixpoint at0 (l : list rterm) : K :=
   match l with [] => 0 | (c, O, p) :: l' => c + at0 l' | (c, S _, p) :: l' => at0 l' end.
+Lemma at0_app l m : at0 (l ++ m) = at0 l + at0 m.
+Proof. induction l as [|[[c n] p] l IH]; cbn [app at0]; [ring|]. destruct n; rewrite IH; ring. Qed.
+Lemma at0_rscale a l : at0 (rscale a l) = a * at0 l.
+Proof. induction l as [|[[c n] p] l IH]; cbn [rscale map at0]; [ring|]. fold (rscale a l). destruct n; rewrite IH; ring. Qed.
 Definition Dreg (t : rterm) : list rterm :=
   match t with (c, O, p) => [(c * p, O, p)] | (c, S n, p) => [(c, n, p); (c * p, S n, p)] end.
 (* ordinary derivative of the regular part (no impulse at the origin) *)
@@ -237,8 +241,7 @@ Proof. induction l as [|[[c n] p] l IH]; cbn [sX fv fv_ok]; intros Hok; [reflexi
     cbn [fpow]. fsolve.
   - apply andb_true_iff in Hok. destruct Hok as [Hp Hok]. rewrite (IH Hok). apply negb_true_iff in Hp. rewrite Hp.
     apply feqb_neq in Hp. assert (Hn : 0 - p <> 0) by (intro Z; apply Hp; transitivity (- (0 - p)); [ring | rewrite Z; ring]).
-    pose proof (fpow_nz K _ (S (S n)) Hn) as Hq. cbn [fpow] in *. field.
-    split; [exact Hn|]. intro Z. apply Hq. rewrite Z. ring. Qed.
+    pose proof (fpow_nz K _ n Hn) as Hq. cbn [fpow] in *. field. split; [assumption | apply opp_nz; exact Hp]. Qed.
 
 End EP.
 
